@@ -665,6 +665,17 @@ def gen_case(rng, profile=None):
                         continue
                 outs = [g for g in outs if g[0] != flag]
 
+    names1 = [a["name"] for a in ad1 + decoys]
+    if demux == "normal" and names1 and rng.random() < 0.12 and (
+        untrimmed_mode == "discard_untrimmed" or (untrimmed_mode == "untrimmed_output" and not paired)
+    ):
+        # an adapter may legally be called 'unknown' when the default unknown file is not in use
+        k = rng.randrange(len(names1))
+        old = names1[k]
+        names1[k] = "unknown"
+        for g in opts:
+            if g[0] in ("-a", "-g", "-b") and g[1].startswith(old + "="):
+                g[1] = "unknown=" + g[1][len(old) + 1 :]
     case = {
         "fmt": "fastq" if fastq else "fasta",
         "paired": paired,
@@ -682,7 +693,7 @@ def gen_case(rng, profile=None):
             "untrimmed_mode": untrimmed_mode,
             "interleaved_out": interleaved_out,
             "pair_filter": pair_filter,
-            "names1": [a["name"] for a in ad1 + decoys],
+            "names1": names1,
             "names2": [a["name"] for a in ad2],
             "n_ad1": len(ad1) + len(decoys),
             "n_ad2": len(ad2),
